@@ -56,6 +56,21 @@ class RefProgram:
                     if e not in ev:
                         ev.append(e)
         self.events = ev
+        # names some spec refers to: only those are resolved into callbacks by the library
+        ref = set()
+        for t in prog["trans"]:
+            for g in ("validators", "cond", "unless", "before", "on", "after"):
+                for expr in t.get(g, []):
+                    ref.update(_expr_names(expr))
+            for e in t["events"]:
+                ref.update((f"before_{e}", f"on_{e}", f"after_{e}"))
+        for s in self.states:
+            ref.update(s.get("enter", []))
+            ref.update(s.get("exit", []))
+            ref.update((f"on_enter_{s['id']}", f"on_exit_{s['id']}"))
+        ref.update(("before_transition", "on_transition", "after_transition", "on_enter_state",
+                    "on_exit_state"))
+        self.referenced = ref
 
     def allowed(self, sid):
         out = []
@@ -109,7 +124,8 @@ class RefInst:
         self.engine = "sync"
         for cbid, meta in cbs.items():
             role = cbid.split(".", 1)[0]
-            if role in self.roles and meta.get("async") and not meta.get("unref"):
+            if (role in self.roles and meta.get("async")
+                    and cbid.split(".", 1)[1] in self.rp.referenced):
                 self.engine = "async"
                 break
         return self.engine
